@@ -65,7 +65,8 @@ structure Script where
 
 def parseScript (case : List String) : Option Script :=
   match case with
-  | "sc" :: m :: _b :: _p :: a :: rest =>
+  | tag :: m :: _b :: _p :: a :: rest =>
+    if !tag.startsWith "sc" then none else
     let g := match m with | "g" => some true | "n" => some false | _ => none
     let ag := match a with | "a0" => some false | "a1" => some true | _ => none
     match g, ag, rest.mapM parseStep with
